@@ -772,7 +772,7 @@ fn main() {
     out.rule = "exhaustive: every sequence of length 1..L-1 and every 4th (quick) / 3rd (thorough) sequence of length L, rotating with the seed (L=4 quick, 5 thorough), over a 10-operation alphabet \
                 (create edge 1->2, stub edge 2->1, self-loop on 1, delete edge 1, delete edge 2, delete node 1, create node, \
                 compact, finish_bulk_load, set property on edge 1) after two node creations, every read view dumped after the \
-                last operation (all proper prefixes are cases of their own); random: histories of <=40 (quick) / <=80 (thorough) \
+                last operation (all proper prefixes are cases of their own); random: histories of <=40 (quick) / <=60 (thorough) \
                 operations over <=6 nodes, 3 labels, 3 types, 3 keys, all 16 operations incl. compaction/bulk finish at random \
                 points, every read view dumped after every operation for ids 0..max+1. Non-trivial = more than one operation; \
                 fans: five nodes then every sequence of length 1..4 (quick) / 1..5 (thorough) over an 8-operation alphabet \
@@ -798,7 +798,7 @@ fn main() {
     let maxlen = if args.thorough { 5 } else { 4 };
     let base = vec![Op::CreateNode(vec![0]), Op::CreateNodeP(vec![0, 1], vec![(0, 1)])];
     // random histories are interleaved with the exhaustive ones so that shards are balanced
-    let (cases, maxops) = if args.thorough { (2000u64, 80u64) } else { (200u64, 40u64) };
+    let (cases, maxops) = if args.thorough { (1000u64, 60u64) } else { (200u64, 40u64) };
     // the longest length is sampled (1 in 4 quick, 1 in 3 thorough, rotating with the seed)
     let stride: u64 = if args.thorough { 3 } else { 4 };
     let exhaustive_total: u64 = (1..maxlen).map(|l| (alphabet.len() as u64).pow(l as u32)).sum::<u64>()
@@ -866,7 +866,7 @@ fn main() {
     }
     // random fans: a hub with 3..6 out- and in-edges kept in the write buffer (some edges compacted
     // before), then deletes biased to the first/middle entries mixed with new edges; every view after every op
-    let fan_cases = if args.thorough { 1500u64 } else { 150u64 };
+    let fan_cases = if args.thorough { 800u64 } else { 150u64 };
     for c in 0..fan_cases {
         let mut r = Rng::for_case(args.seed ^ 0xFA17, c);
         let nn = r.range(4, 6);
